@@ -17,6 +17,8 @@ CONSTANTS
   AllowProgress = FALSE
   PreFF = {FALSE}
   Coded = {"liveTagSets"}
+  SubErrs = {}
+  DetIds = {"fresh"}
 VIEW ViewNoHist
 INVARIANT ExactlyOnce
 PROPERTY DeliveredStable
